@@ -65,7 +65,7 @@ Match(o, c) == (o = "(" /\ c = ")") \/ (o = "[" /\ c = "]") \/ (o = "{" /\ c = "
 (* Automaton state                                                       *)
 (*  m   lexical mode                                                      *)
 (*  st  stack of open brackets                                            *)
-(*  at  shape of the atom in progress: none sym int flt odd; in rune mode *)
+(*  at  shape of the atom in progress: none sym dsym int flt odd; in rune mode *)
 (*      the number of characters seen: r0 r1 r2                           *)
 (*  q   exact | fuzzy | lost                                              *)
 (*  n   top-level expressions completed so far (comments not counted)     *)
@@ -111,11 +111,12 @@ Code(s, c, DevStar) ==
       [] c = "q"  -> IF s.at = "none" THEN Fz([s EXCEPT !.lt = "prefix"]) ELSE Lose(s)
       [] c = "t"  -> IF s.at = "none" THEN Fz([s EXCEPT !.m = "tilde"]) ELSE Lose(s)
       [] c = "a"  -> (* "- Inf" is one number: a word right after a lone sign leaves the count open *)
-                     LET t == SetAt(s, IF s.at \in {"none", "sym"} THEN "sym" ELSE "odd") IN
+                     LET t == SetAt(s, CASE s.at \in {"none", "sym"} -> "sym" [] s.at = "dsym" -> "dsym" [] OTHER -> "odd") IN
                      IF s.lt = "minus" /\ s.at = "none" THEN Fz(t) ELSE t
       [] c = "x"  -> SetAt(s, "odd")
-      [] c = "1"  -> SetAt(s, CASE s.at = "none" -> "int" [] s.at \in {"sym", "int", "flt"} -> s.at [] OTHER -> "odd")
-      [] c = "."  -> SetAt(s, CASE s.at = "sym" -> "sym" [] s.at = "int" -> "flt" [] OTHER -> "odd")
+      [] c = "1"  -> SetAt(s, CASE s.at = "none" -> "int" [] s.at \in {"sym", "dsym", "int", "flt"} -> s.at [] OTHER -> "odd")
+      (* a.b is a dotted symbol: a word, but a colon behind it is a token of its own *)
+      [] c = "."  -> SetAt(s, CASE s.at \in {"sym", "dsym"} -> "dsym" [] s.at = "int" -> "flt" [] OTHER -> "odd")
       [] OTHER -> Lose(s)
 
 Step(s, c, DevStar) ==
